@@ -513,6 +513,7 @@ func (r *Run) Finish() {
 	}
 	fmt.Printf("%s %s seed=%d: evaluations=%d distinct_nontrivial=%d violations=%d inconclusive=%d wall=%.1fs\n",
 		r.ID, r.Tier, r.Seed, r.evaluations, len(r.distinct), nviol, inc, time.Since(r.start).Seconds())
+	removeScratch()
 	if nviol > 0 {
 		os.Exit(1)
 	}
@@ -526,6 +527,7 @@ func (r *Run) Finish() {
 // Fatalf reports a harness error (never a verdict) and exits 2.
 func (r *Run) Fatalf(format string, a ...any) {
 	fmt.Printf("HARNESS-ERROR property=%s %s\n", r.ID, fmt.Sprintf(format, a...))
+	removeScratch()
 	os.Exit(2)
 }
 
@@ -573,7 +575,27 @@ func Scratch(prefix string) string {
 		fmt.Fprintf(os.Stderr, "scratch: %v\n", err)
 		os.Exit(2)
 	}
+	scratchMu.Lock()
+	scratchDirs = append(scratchDirs, d)
+	scratchMu.Unlock()
 	return d
+}
+
+// the scratch directories handed out by Scratch: removed when the run ends through Finish or Fatalf (deferred removals of
+// the checks do not run then, the process exits)
+var (
+	scratchMu   sync.Mutex
+	scratchDirs []string
+)
+
+func removeScratch() {
+	scratchMu.Lock()
+	dirs := scratchDirs
+	scratchDirs = nil
+	scratchMu.Unlock()
+	for _, d := range dirs {
+		_ = os.RemoveAll(d)
+	}
 }
 
 // ReadReplay loads a witness file written by Violation.
